@@ -256,7 +256,7 @@ func roundTrip(c rtCase) {
 	}
 	mstream = append(mstream, wire.Frame(w2)...)
 	for _, class := range c.Classes {
-		if class == "byte1" && n > 4096 && n%16 != 0 {
+		if (class == "byte1" || class == "rand-eoflast") && n > 4096 && n%16 != 0 {
 			continue // ReadMsgFromTCP sits on ReadRawMsgFromTCP, which gets byte1 at every length
 		}
 		if readMsgSeq(mstream, []msgSpec{sp, sp2}, [][]byte{want, w2}, class, seed^0x888, c) {
@@ -881,14 +881,14 @@ func runConcurrentWriters(c cwCase) {
 			}
 		}
 		if bad != "" {
-			rep.Violation("concurrent-writers-interleaved", fmt.Sprintf("%d goroutines framing onto one connection: frame %d of the serialised stream is not an intact message (%s); the stream took %d Write calls for %d messages", c.Writers, i, bad, rec.calls, len(sent)), map[string]any{"case": c, "frame_head": hexHead(f, 40)})
+			rep.Violation("concurrent-writers-stream-misframed", fmt.Sprintf("%d goroutines framing onto one connection: frame %d of the serialised stream is not an intact message (%s); the stream took %d Write calls for %d messages", c.Writers, i, bad, rec.calls, len(sent)), map[string]any{"case": c, "frame_head": hexHead(f, 40)})
 			return
 		}
 		delete(sent, seq)
 		good++
 	}
 	if len(d.Rest()) != 0 || len(sent) != 0 {
-		rep.Violation("concurrent-writers-interleaved", fmt.Sprintf("serialised stream ends inside a frame (%d bytes left) or misses %d messages", len(d.Rest()), len(sent)), c)
+		rep.Violation("concurrent-writers-stream-misframed", fmt.Sprintf("serialised stream ends inside a frame (%d bytes left) or misses %d messages", len(d.Rest()), len(sent)), c)
 		return
 	}
 	rep.Count("concurrent_writer_frames_verified", int64(good))
